@@ -288,6 +288,41 @@ int __isoc99_sscanf(const char *s, const char *fmt, ...)
 	return vp_sscanf_http_version(s, fmt, p1, p2, p3);
 }
 
+/* ---- reading an int-class variadic argument --------------------------------
+ * cbmc 6.11 keeps a variadic argument in an object of the argument's own type
+ * (a `char` such as evhttp_request.major is NOT widened to int by the default
+ * argument promotions), so va_arg(ap, int) would read 4 bytes from a 1-byte
+ * object.  cbmc's va_list is a `void **` walking an array of pointers to the
+ * argument objects: look at the object's size and read it with that width. */
+static long long vp_va_int(void ***app)
+{
+	void **ap = *app;
+	void *slot = *ap;
+	size_t sz = __CPROVER_OBJECT_SIZE(slot);
+	long long v;
+	if (sz == 1) v = *(signed char *)slot;
+	else if (sz == 2) v = *(short *)slot;
+	else if (sz == 4) v = *(int *)slot;
+	else v = *(long long *)slot;
+	*app = ap + 1;
+	return v;
+}
+static unsigned long long vp_va_uint(void ***app)
+{
+	void **ap = *app;
+	void *slot = *ap;
+	size_t sz = __CPROVER_OBJECT_SIZE(slot);
+	unsigned long long v;
+	if (sz == 1) v = *(unsigned char *)slot;
+	else if (sz == 2) v = *(unsigned short *)slot;
+	else if (sz == 4) v = *(unsigned *)slot;
+	else v = *(unsigned long long *)slot;
+	*app = ap + 1;
+	return v;
+}
+#define VP_VA_INT(ap) vp_va_int((void ***)&(ap))
+#define VP_VA_UINT(ap) vp_va_uint((void ***)&(ap))
+
 /* ---- vsnprintf for the conversions http.c uses ---------------------------- */
 static size_t vp_fmt_putc(char *buf, size_t size, size_t pos, char ch)
 {
@@ -328,7 +363,7 @@ int vsnprintf(char *buf, size_t size, const char *fmt, va_list ap)
 		if (ch == '%') {
 			pos = vp_fmt_putc(buf, size, pos, '%');
 		} else if (ch == 'c') {
-			pos = vp_fmt_putc(buf, size, pos, (char)va_arg(ap, int));
+			pos = vp_fmt_putc(buf, size, pos, (char)VP_VA_INT(ap));
 		} else if (ch == 's') {
 			const char *s = va_arg(ap, const char *);
 			size_t k, room;
@@ -338,12 +373,12 @@ int vsnprintf(char *buf, size_t size, const char *fmt, va_list ap)
 				pos = vp_fmt_putc(buf, size, pos, s[k]);
 			VP_STR_TERMINATED(k < room);
 		} else if (ch == 'd') {
-			long long v = lng ? va_arg(ap, long) : (long long)va_arg(ap, int);
+			long long v = VP_VA_INT(ap); (void)lng;
 			unsigned long long u = v < 0 ? 0ULL - (unsigned long long)v : (unsigned long long)v;
 			if (v < 0) pos = vp_fmt_putc(buf, size, pos, '-');
 			pos = vp_fmt_unum(buf, size, pos, u, 10, 0, minw, pad);
 		} else if (ch == 'u' || ch == 'x' || ch == 'X') {
-			unsigned long long u = lng ? va_arg(ap, unsigned long) : (unsigned long long)va_arg(ap, unsigned);
+			unsigned long long u = VP_VA_UINT(ap); (void)lng;
 			pos = vp_fmt_unum(buf, size, pos, u, ch == 'u' ? 10 : 16, ch == 'X', minw, pad);
 		} else {
 			__CPROVER_assert(0, "http_fmt: vsnprintf model: conversion not covered");
